@@ -120,6 +120,7 @@ def plan_for(prop, tier, seed):
                                                        + G.f_oob_rects(ids, rng, G.real_model_list(rng, ["ili9341_666", "st7735s"] if q else None, full=not q), n_per_cfg=4)),
         ]
     elif prop == "C03":
+        p.mc = [(MCP, "MC_Batch_q" if q else "MC_Batch_t", 12, 3000, None)] + ([] if q else [(MCP, "MC_Batch_oob_t", 12, 3000, None)])
         p.rule = ("scenario = configuration + draw_iter streams (colour i on the i-th element); non-trivial: a stream of at "
                   "least 2 pixels that contains a left-to-right adjacency or a repeated position")
         p.nontrivial = lambda sc: any(c["name"] == "draw_iter" and len(c["px"]) >= 2 for c in sc["calls"])
@@ -129,6 +130,7 @@ def plan_for(prop, tier, seed):
             ("tiny-streams", True, "dev", lambda ids, rng: G.f_tiny_placement(ids, rng, ifaces=("rec",), sample=0.1 if q else 0.6)),
         ]
     elif prop == "C04":
+        p.mc = [("MC_Small", "MC_Small_clip16", 4, 600, None), (MCP, "MC_Placement_in_q" if q else "MC_Placement_in_t", 12, 3000, None)]
         p.rule = ("scenario = configuration + fill_contiguous calls; non-trivial: a rectangle that is partly clipped or a colour "
                   "stream whose length differs from the area")
         p.nontrivial = lambda sc: any(c["name"] == "fill_contiguous" for c in sc["calls"])
@@ -164,6 +166,7 @@ def plan_for(prop, tier, seed):
             ("reorient-nobatch", False, "dev", lambda ids, rng: G.f_reorient(ids, rng, G.tiny_model_list([(2, 3), (4, 3)], rng, 3 if q else 20), ifaces=("rec",))),
         ]
     elif prop == "C20":
+        p.mc = [("MC_Spi", "MC_Spi", 8, 900, None), (MCP, "MC_Batch_q" if q else "MC_Batch_t", 12, 3000, None)]
         p.rule = ("scenario = configuration + fills / long streams; non-trivial: a fill with a visible part, or a stream with a "
                   "left-to-right run of at least 2 pixels; the row capacity is measured from one 1000-pixel run")
         p.nontrivial = lambda sc: len(drawing_calls(sc)) >= 1
@@ -173,6 +176,7 @@ def plan_for(prop, tier, seed):
                                             + G.f_oob_rects(ids, rng, G.tiny_model_list([(4, 3), (7, 5)], rng, 3 if q else 30), ifaces=("spi",))),
         ]
     elif prop == "C06":
+        p.mc = [("MC_Spi", "MC_Spi", 8, 900, None)]
         p.rule = ("case = one interface-level call on the real SpiInterface (buffer length, words per pixel, count / pixel list / "
                   "parameter list); non-trivial: count is 0, a multiple of the buffer capacity, or spans more than one buffer; "
                   "or a parameter list longer than 0")
@@ -183,6 +187,7 @@ def plan_for(prop, tier, seed):
             ("spi-smallalpha", True, "dev", lambda ids, rng: G.f_small_alphabet(ids, rng, 400 if q else 6000, ifaces=("spi",))),
         ]
     elif prop == "C07":
+        p.mc = [("MC_Parallel", "MC_Parallel", 8, 900, None)]
         p.rule = ("case = word sequences / repeat counts on the real ParallelInterface (8 and 16 pins) and set_value histories "
                   "with injected data-pin failures; non-trivial: equal consecutive words, an all-equal repeated pixel, or a failure")
         p.nontrivial = lambda sc: True
@@ -192,6 +197,7 @@ def plan_for(prop, tier, seed):
             ("parallel-smallalpha", True, "dev", lambda ids, rng: G.f_small_alphabet(ids, rng, 300 if q else 5000, ifaces=("p8", "p16"))),
         ]
     elif prop == "C09":
+        p.mc = [("MC_Small", "MC_Small_init", 8, 900, None)]
         p.rule = ("case = (width, height, offset_x, offset_y, framebuffer, reset pin) given to Builder::init; non-trivial: the "
                   "tuple is within one unit of an acceptance boundary, contains a zero, or offset + size exceeds 65535")
         p.nontrivial = lambda sc: True
@@ -199,6 +205,7 @@ def plan_for(prop, tier, seed):
             ("init-grid", True, "dev", lambda ids, rng: G.f_init_grid(ids, rng, nrandom=3000 if q else 60000, grid_sample=0.3 if q else 3.0)),
         ]
     elif prop in ("C11", "C17"):
+        p.mc = [("MC_ModelInit", "MC_ModelInit", 12, 900, None)]
         p.rule = ("case = (model, interface kind, colour order, orientation, inversion, refresh order, reset pin); all 14 models x "
                   "every kind they accept or refuse, through Builder::init on real and recording transports and through "
                   "Model::init directly where the colour type hides the pairing from Builder")
@@ -210,6 +217,7 @@ def plan_for(prop, tier, seed):
             # the reset step under a failing bus: a failure must not make the reset happen twice
             p.families.append(("reset-faults", True, "dev", lambda ids, rng: {"bases": [b for b in G.fault_bases(ids, rng, q) if b["tag"] == "fault-init"]}))
     elif prop == "C12":
+        p.mc = [("MC_Spi", "MC_Spi", 8, 900, None), ("MC_Parallel", "MC_Parallel", 8, 900, None)]
         p.level = "fault_enumeration"
         p.rule = ("case = (driver operation, model, transport, index k of the failing low-level operation); every k of every SPI "
                   "call in the quick tier and a seeded sample on the parallel transports, every k everywhere in the thorough tier")
@@ -218,6 +226,7 @@ def plan_for(prop, tier, seed):
             ("faults", True, "dev", lambda ids, rng: {"bases": G.fault_bases(ids, rng, q)}),
         ]
     elif prop == "C13":
+        p.mc = [("MC_Lifecycle", "MC_Lifecycle", 4, 900, None), ("MC_ModelInit", "MC_ModelInit", 12, 900, None)]
         p.rule = ("case = history over {sleep, wake, draw, set_orientation, scroll, tearing, clear} after init of a model; "
                   "non-trivial: at least two sleep/wake calls")
         p.nontrivial = lambda sc: sum(1 for c in sc["calls"] if c["name"] in ("sleep", "wake")) >= 2
@@ -227,6 +236,7 @@ def plan_for(prop, tier, seed):
             ("model-init", True, "dev", lambda ids, rng: G.f_model_init(ids, rng, full=False, after=False)),
         ]
     elif prop == "C16":
+        p.mc = [("MC_Small", "MC_Small_scroll", 4, 900, None)]
         p.rule = ("case = (top, bottom) / offset on a model's framebuffer height; non-trivial: within one of the height boundary, "
                   "or top + bottom > 65535")
         p.nontrivial = lambda sc: True
@@ -247,6 +257,7 @@ def plan_for(prop, tier, seed):
             ("model-init", True, "dev", lambda ids, rng: G.f_model_init(ids, rng, full=False, after=False)),
         ]
     elif prop == "C14":
+        p.mc = [("MC_Small", "MC_Small_madctl", 8, 900, None)]
         p.rule = ("table rows = SetAddressMode::new / From<&ModelOptions> for all 64 input combinations, and sequences of 1..3 "
                   "with_* setters from all 64 API-reachable starting values (length 1 complete, 2 and 3 seeded samples in the "
                   "quick tier, complete in the thorough tier)")
@@ -254,6 +265,7 @@ def plan_for(prop, tier, seed):
         p.tables = [("madctl", True, "dev", lambda rng: G.t_madctl(rng, seq3_sample=0.02 if q else 1.0))]
         p.families = [("model-init", True, "dev", lambda ids, rng: G.f_model_init(ids, rng, full=False, after=True))]
     elif prop == "C15":
+        p.mc = [("MC_Small", "MC_Small_group", 8, 900, None), ("MC_Small", "MC_Small_angle", 4, 900, None)]
         p.rule = ("table rows = all words of length <= 4 over {rotate 0/90/180/270, flip_horizontal, flip_vertical} from all 8 "
                   "orientations (closure is reached at length 3), angle parsing over -720..720, the i32 ends, seeded samples and "
                   "a strided (quick) / complete (thorough) sweep of all 2^32 angles against the validated residue table")
